@@ -28,6 +28,9 @@ float nondet_float(void);
 #ifndef EXPORT_LOCAL
 #define EXPORT_LOCAL(x) ((void)0)
 #endif
+#ifndef SKELETON_RETURN
+#define SKELETON_RETURN(f) ((void)0)
+#endif
 #ifndef PLACEMENT_NEW_HOOK
 #define PLACEMENT_NEW_HOOK(p) (p)
 #endif
@@ -36,8 +39,11 @@ float nondet_float(void);
 /* vacuity guard for assertion harnesses: built with -DCANARY_HARNESS this must FAIL */
 #ifdef CANARY_HARNESS
 #define HARNESS_END __CPROVER_assert(0, "canary: end of harness reachable")
+/* the antecedent of a conditional obligation must be satisfiable: in the canary build its negation must be refuted */
+#define SATISFIABLE(c) __CPROVER_assert(!(c), "canary: antecedent satisfiable")
 #else
 #define HARNESS_END ((void)0)
+#define SATISFIABLE(c) ((void)0)
 #endif
 /* strict-weak-order lemmas over three arbitrary records: LT(x,y) is the call */
 #define ASSERT_STRICT_ORDER(LT, a, b, c)                                                   \
